@@ -94,6 +94,7 @@ CATALOGUE = [
     ("split-drops-nonblank-last-piece", "C05", "text.py", "        if not allow_blank and text.endswith(separator) and not lines[-1].plain:", "        if not allow_blank and text.endswith(separator):"),
     ("styled-control-to-non-terminal", "C03", "console.py", "            if not_terminal and is_control:\n                continue\n            if style:", "            if style:"),
     ("traceback-lexer-guess-raises", "C17", "traceback.py", "        except ClassNotFound:\n            # no lexer for this file name: show the source without highlighting\n            lexer_name = \"text\"", "        except ZeroDivisionError:\n            lexer_name = \"text\""),
+    ("live-stop-does-not-flush-redirect", "C10", "live.py", "                self._flush_redirected_io()\n", ""),
     ("rgb-name-keeps-blanks", "C06", "color.py", "            return cls(\"\".join(color.split()), ColorType.TRUECOLOR, triplet=triplet)", "            return cls(color, ColorType.TRUECOLOR, triplet=triplet)"),
     ("percentage-not-clamped-low", "C12", "progress.py", "completed = min(100.0, max(0.0, completed))\n        return completed", "completed = min(100.0, completed)\n        return completed"),
     ("finished-time-overwritten", "C12", "progress.py", "            if task.completed >= task.total and task.finished_time is None:\n                task.finished_time = task.elapsed\n\n    def refresh", "            if task.completed >= task.total:\n                task.finished_time = task.elapsed\n\n    def refresh"),
